@@ -39,7 +39,7 @@ func init() {
 				p.MaxLeaves = 70
 			}
 			p.RememberMode = 1
-			s := genForestScenario(c.Rng, tag, cfgs, fGenOpts{Profile: p, Rounds: 2 + c.Rng.Intn(3), Undo: c.Index%3 != 1, PartialOps: true, ForceEmptyRootOverwrite: c.Index%5 == 0, Reload: c.Index%4 == 2})
+			s := genForestScenario(c.Rng, tag, cfgs, fGenOpts{Profile: p, Rounds: 2 + c.Rng.Intn(3), Undo: c.Index%3 != 1, PartialOps: true, ForceEmptyRootOverwrite: c.Index%5 == 0, Reload: c.Index%4 == 2, JunkProofs: c.Index%4 == 0})
 			c09Check(c, s)
 		},
 		Replay: func(c *core.Ctx, raw json.RawMessage) {
